@@ -256,7 +256,7 @@ func optName(ign, inc bool) string {
 
 func TestCheck(t *testing.T) {
 	run := ev.Start(t, "C17", "exploration")
-	n := run.Pick(100000, 600000)
+	n := run.Pick(100000, 3000000)
 	ev.Parallel(n, ev.Workers(), func(i int) {
 		caseID := fmt.Sprintf("case-%d", i)
 		if !run.Want(caseID) {
